@@ -111,6 +111,19 @@ def impl(case):
         res["array_all"] = [[_f(np.asarray(getattr(x, "value", x))[k]) for x in r] for k in range(3)]
         # point-by-point answers of the other batch members
         res["others_scalar"] = [_vals(m(*[float(a) for a in o])) for o in others]
+        # the same three points laid out in 2-D / 3-D arrays: same shape out, same value per element
+        nd = []
+        for sh in ((3, 2), (2, 3), (1, 3), (3, 3), (2, 3, 2)):
+            idx = np.arange(int(np.prod(sh))).reshape(sh) % 3
+            try:
+                rn = m(*[c[idx] for c in cols])
+                rn = rn if isinstance(rn, tuple) else (rn,)
+                ok = all(np.shape(x) == sh for x in rn) and all(
+                    np.array_equal(np.asarray(getattr(x, "value", x)), np.asarray(getattr(y, "value", y))[idx], equal_nan=True) for x, y in zip(rn, r))
+                nd.append([list(sh), "ok" if ok else "differs:" + str([list(np.shape(x)) for x in rn])])
+            except Exception as e:
+                nd.append([list(sh), "raised " + type(e).__name__ + ": " + str(e)[:60]])
+        res["nd"] = nd
     except Exception as e:
         res["array_err"] = C.exc_enum(e) + ":" + str(e)[:80]
     if case["fn"] in UNITS:
@@ -120,6 +133,24 @@ def impl(case):
             res["quantity"] = [_f(x.to_value(u.deg) if case["fn"] == "cartesianToSpherical" else getattr(x, "value", x)) for x in q]
         except Exception as e:
             res["quantity_err"] = C.exc_enum(e) + ":" + str(e)[:80]
+    if case["fn"] == "cartesianToSpherical":
+        # the components of a vector given in different (convertible) units
+        try:
+            x, y, z = [float(a) for a in args]
+            q = m(x * u.m, (y * 100.0) * u.cm, (z / 1000.0) * u.km)
+            res["quantity_mixed"] = [_f(v.to_value(u.deg)) for v in q]
+        except Exception as e:
+            res["quantity_mixed_err"] = C.exc_enum(e) + ":" + str(e)[:80]
+    if case["fn"] in ("sphericalToCartesian", "cartesianToSpherical"):
+        # the wrap convention is a public attribute: after changing it, the declared inverse follows
+        try:
+            m2 = _model(case)
+            _first = m2.inverse
+            new_wrap = 180 if m2.wrap_lon_at == 360 else 360
+            m2.wrap_lon_at = new_wrap
+            res["rewrap_inverse"] = int(m2.inverse.wrap_lon_at) == new_wrap
+        except Exception as e:
+            res["rewrap_err"] = C.exc_enum(e) + ":" + str(e)[:80]
     # declared inverse
     try:
         inv = m.inverse
@@ -172,8 +203,18 @@ def oracle(case, res):
             out.append(("shape", "%s: output shape differs from input shape" % fn))
         if not res["args_intact"]:
             out.append(("args", "%s modified its input arrays" % fn))
+        for sh, verdict in res.get("nd", []):
+            if verdict != "ok":
+                out.append(("shape_nd", "%s on inputs of shape %s: %s (element-wise values / shape must match the 1-D evaluation)" % (fn, sh, verdict)))
+                break
     if "quantity" in res and not all(_close(_unf(x), y, 1e-13, 1e-13) for x, y in zip(res["quantity"], s)):
         out.append(("quantity", "%s%s: quantity inputs give %s, plain inputs %s" % (fn, a, [_unf(v) for v in res["quantity"]], s)))
+    if "quantity_mixed" in res and not all(_close(_unf(x), y, 1e-12, 1e-10) for x, y in zip(res["quantity_mixed"], s)):
+        out.append(("quantity", "%s%s: components given in m / cm / km give %s, plain inputs %s" % (fn, a, [_unf(v) for v in res["quantity_mixed"]], s)))
+    if "quantity_mixed_err" in res:
+        out.append(("quantity", "%s raised on components in mixed units: %s" % (fn, res["quantity_mixed_err"])))
+    if res.get("rewrap_inverse") is False or "rewrap_err" in res:
+        out.append(("inverse_wrap", "%s: after changing wrap_lon_at the declared inverse keeps the old convention (%s)" % (fn, res.get("rewrap_err", "stale"))))
     if "quantity_err" in res:
         out.append(("quantity", "%s raised on quantity inputs: %s" % (fn, res["quantity_err"])))
     if fn == "sphericalToCartesian":
